@@ -101,6 +101,12 @@ Definition parse_read_resource (name : string) : result (string * Z * Z) :=
 Definition contains (present : bool) (hash : string) (size : Z) : bool :=
   ((size <=? 0) && String.eqb hash emptySha256) || present.
 
+(* Write returns early for a blob that is already there — except for the empty digest, which always
+   "exists": such an upload goes through the normal protocol so that Put can refuse data sent for it *)
+Definition is_empty_digest (hash : string) (size : Z) : bool := (size =? 0) && String.eqb hash emptySha256.
+Definition early_return (present : bool) (hash : string) (size : Z) : bool :=
+  contains present hash size && negb (is_empty_digest hash size).
+
 (* ------------------------------------------------------------------ *)
 (* ByteStream.Write.  A request message, reduced to what the handler looks at. *)
 
@@ -136,7 +142,7 @@ Definition recv_run (maxsz : Z) (present : bool) (msgs : list wmsg) : recv_end :
       match parse_write_resource (m_name m) with
       | Ok (hash, size, cmp) =>
           if size >? maxsz then REarly EBadRequest else
-          if contains present hash size then RExists (if cmp =? cmp_identity then size else -1) else
+          if early_return present hash size then RExists (if cmp =? cmp_identity then size else -1) else
           if negb (m_off m =? 0) then REarly EInternal (* errWriteOffset, a plain error: Unknown *) else
           recv_loop (m_name m) size cmp true 0 0 msgs
       | Err e => REarly e
@@ -149,8 +155,12 @@ Definition recv_run (maxsz : Z) (present : bool) (msgs : list wmsg) : recv_end :
    (io.Copy / the "no data left" ReadFull), so it can only succeed after the handler has closed
    the pipe cleanly; it may however FAIL before the end of the stream when its reader fails
    (undecodable zstd data): [PutFailsEarly k e] = the error e is on putResult once the data of
-   k messages has been piped. *)
-Inductive put_beh := PutToEnd | PutFailsEarly (k : nat) (e : errc).
+   k messages has been piped.  For the empty digest Put only probes its reader for one byte and
+   ignores a reader error: with undecodable zstd data it RETURNS NIL before the end of the stream,
+   [PutNilEarly k]; the handler treats a nil on putResult that arrives before its own io.EOF as an
+   internal error, so there the outcome depends on which channel the select takes. *)
+Inductive put_beh := PutToEnd | PutFailsEarly (k : nat) (e : errc) | PutNilEarly (k : nat).
+Definition nil_early_free (b : put_beh) : bool := match b with PutNilEarly _ => false | _ => true end.
 
 Record wout := mkOut {
   w_status : result Z;          (* Ok committed_size | Err class *)
@@ -172,6 +182,11 @@ Definition write_handler (sel : bool) (beh : put_beh) (put_err : errc) (maxsz : 
       | PutFailsEarly k e =>
           if (k <? j)%nat then mkOut (Err e) true None false     (* either order of the select ends with Put's error *)
           else if put_ok j then mkOut (Ok cs) true (Some j) true else mkOut (Err put_err) true (Some j) false
+      | PutNilEarly k =>
+          if (k <? j)%nat then
+            (if sel then mkOut (Err EInternal) true None false   (* "Unexpected early return" *)
+             else mkOut (Ok cs) true None false)                 (* recvResult first, then the nil *)
+          else if put_ok j then mkOut (Ok cs) true (Some j) true else mkOut (Err put_err) true (Some j) false
       | PutToEnd =>
           if put_ok j then mkOut (Ok cs) true (Some j) true else mkOut (Err put_err) true (Some j) false
       end
@@ -179,6 +194,9 @@ Definition write_handler (sel : bool) (beh : put_beh) (put_err : errc) (maxsz : 
       match beh with
       | PutFailsEarly k e' =>
           if (k <? j)%nat then mkOut (Err (if sel then e' else e)) true None false
+          else mkOut (Err e) true None false
+      | PutNilEarly k =>
+          if (k <? j)%nat then mkOut (Err (if sel then EInternal else e)) true None false
           else mkOut (Err e) true None false
       | PutToEnd => mkOut (Err e) true None false              (* pw.CloseWithError: Put cannot commit *)
       end
@@ -224,18 +242,20 @@ Definition qws_eqb (a b : result (Z * bool)) : bool :=
 Inductive bcase :=
 | BParseW (name : string) (obs : option (string * Z * Z))
 | BParseR (name : string) (obs : option (string * Z * Z))
-| BWrite (maxsz : Z) (present : bool) (msgs : list wmsg) (put_ok : list bool)
+| BWrite (maxsz : Z) (present : bool) (msgs : list wmsg) (put_ok : list bool) (put_err : errc) (nil_early : bool)
          (obs_status : result Z) (obs_present_after : bool)
-    (* put_ok: for j = 0..n, whether the data of the first j messages is the declared blob (driver's oracle) *)
+    (* put_ok: for j = 0..n, whether Put accepts the data of the first j messages (driver's oracle: the
+       declared blob; for the empty digest: no decodable byte); put_err: Put's error class otherwise;
+       nil_early: undecodable zstd data for the empty digest — Put may return nil before the end *)
 | BQws (present : bool) (name : string) (obs : result (Z * bool)).
 
 Definition case_ok (c : bcase) : bool :=
   match c with
   | BParseW name obs => opt_eqb parsed_eqb (parse_obs (parse_write_resource name)) obs
   | BParseR name obs => opt_eqb parsed_eqb (parse_obs (parse_read_resource name)) obs
-  | BWrite maxsz present msgs pok st pa =>
-      let run sel beh := write_handler sel beh EInternal maxsz present (fun j => nth j pok false) msgs in
-      let o := run false PutToEnd in
-      status_eqb (w_status o) st && Bool.eqb (present_after present o) pa
+  | BWrite maxsz present msgs pok perr nil_early st pa =>
+      let run sel beh := write_handler sel beh perr maxsz present (fun j => nth j pok false) msgs in
+      let good o := status_eqb (w_status o) st && Bool.eqb (present_after present o) pa in
+      good (run false PutToEnd) || (nil_early && (good (run true (PutNilEarly 0)) || good (run false (PutNilEarly 0))))
   | BQws present name obs => qws_eqb (query_write_status present name) obs
   end.
